@@ -291,12 +291,21 @@ func Y(site uint32) {
 		// park the task right where it touches process-wide state (a package-level
 		// variable) or has just run its deferred calls, and let the others complete
 		// whole operations meanwhile: first-use initialisation, counters, try-locks
-		if inOp[me] && (site == SiteAtomic || site < uint32(len(Sites)) && Sites[site].Flags&(FlagGlobal|FlagExit) != 0) {
+		if inOp[me] {
 			q := cfg.SyncQ
 			if q < 1 {
 				q = 1
 			}
-			if rng.Intn(q) == 0 {
+			hot := site == SiteAtomic
+			cold := false
+			if site < uint32(len(Sites)) {
+				f := Sites[site].Flags
+				hot = f&(FlagHotGlobal|FlagExit) != 0
+				cold = !hot && f&FlagGlobal != 0
+			}
+			// hot: atomics, writes to / method calls on package-level state, exit yields;
+			// cold: statements that merely mention a package-level variable (mostly table reads)
+			if hot && rng.Intn(q) == 0 || cold && rng.Intn(q*16) == 0 {
 				park(site)
 			}
 		}
